@@ -326,6 +326,10 @@ def invert(I, ctx, v):
 
 def seq_concat(a, b):
     la, lb = a.length, b.length
+    if isinstance(la, int) and la == 0:
+        return b
+    if isinstance(lb, int) and lb == 0:
+        return a
 
     def elem(i):
         if isinstance(la, int) and isinstance(i, int):
@@ -362,8 +366,22 @@ def merge_vals(cond, a, b):
         return IsoStr(key=z3.If(cond, _z(a.key), _z(b.key)))
     if isinstance(a, Opaque) and isinstance(b, Opaque) and a.e is not None and b.e is not None and a.e.sort() == b.e.sort():
         return Opaque(z3.If(cond, a.e, b.e), a.tag, a.attrs)
-    if isinstance(a, SymRec) and isinstance(b, SymRec) and a.cls is b.cls:
-        return SymRec(a.cls, {k: merge_vals(cond, a.fields[k], b.fields[k]) for k in a.fields})
+    if isinstance(a, (SymRec, Obj)) and isinstance(b, (SymRec, Obj)) and a.cls is b.cls:
+        # read-only merged view of two records of the same class (identity is not preserved)
+        fields = {}
+        for k in a.fields:
+            if k in b.fields:
+                try:
+                    fields[k] = merge_vals(cond, a.fields[k], b.fields[k])
+                except Unsupported:
+                    pass
+        return SymRec(a.cls, fields)
+    for x, y, flip in ((a, b, False), (b, a, True)):
+        if x is None and isinstance(y, Opaque) and y.attrs.get("none_value") is not None:
+            nv = y.attrs["none_value"]
+            return merge_vals(cond, nv, y) if not flip else merge_vals(cond, y, nv)
+    if isinstance(a, str) and isinstance(b, str) and a == b:
+        return a
     if a is None and b is None:
         return None
     if isinstance(a, OptVal) or isinstance(b, OptVal) or a is None or b is None:
@@ -432,6 +450,9 @@ def eq_formula(I, ctx, a, b):
         inner = eq_formula(I, ctx, oa.val, ob.val)
         inner = z3.BoolVal(inner) if isinstance(inner, bool) else inner
         return z3.Or(z3.And(oa.is_none, ob.is_none), z3.And(z3.Not(oa.is_none), z3.Not(ob.is_none), inner))
+    for x, y in ((a, b), (b, a)):
+        if isinstance(x, Opaque) and y is None and x.attrs.get("is_none"):
+            return smt.simp(x.attrs["is_none"]())
     if a is None or b is None:
         return a is b
     if isinstance(a, Sym) or isinstance(b, Sym):
@@ -572,6 +593,9 @@ def lex_formula(I, ctx, op, xs, ys):
 
 
 def is_formula(I, ctx, a, b):
+    for x, y in ((a, b), (b, a)):
+        if isinstance(x, Opaque) and y is None and x.attrs.get("is_none"):
+            return wrap(x.attrs["is_none"]())
     if isinstance(a, OptVal) and b is None:
         return wrap(a.is_none)
     if isinstance(b, OptVal) and a is None:
